@@ -178,6 +178,61 @@ def accessor_lroo(ctx):
     ctx.sample(sub, {"words": "all binary words of length 1,2,5,9 as pixels", "backends": ["numpy", "dask"]})
 
 
+def lroo_small_cubes(ctx):
+    """lroo through the accessor on SMALL cubes in every layout: each binary word alone (1x1 cube), every pair of
+    words of length <= 5 as a 1x2 cube, every triple of length <= 3 - so that a time step can be empty across the
+    whole cube - as (y,x,time), (time,y,x) and (y,time,x), contiguous and as transposed views, numpy and dask."""
+    import pandas as pd
+    import xarray as xr
+    sub = "lroo_small_cubes"
+
+    def cubes():
+        for n in range(1, 11):
+            for w in sse.word_indices(2, n).astype("uint8"):
+                yield w[None, :]
+        for n in range(2, 6):
+            W = sse.word_indices(2, n).astype("uint8")
+            for a in W:
+                for b in W:
+                    yield np.stack([a, b])
+        W = sse.word_indices(2, 3).astype("uint8")
+        for a in W:
+            for b in W:
+                for c in W:
+                    yield np.stack([a, b, c])
+
+    n_c = 0
+    for px in cubes():
+        N, n = px.shape
+        _, best = ref_runs(px)
+        exp = np.where(best >= 2, best, 0)
+        time = pd.date_range(TIME_START, periods=n, freq="10D")
+        base = xr.DataArray(px.reshape(1, N, n).copy(), dims=("y", "x", "time"), coords={"time": time})
+        variants = {
+            "(y,x,time)": base,
+            "(time,y,x) contiguous": xr.DataArray(np.ascontiguousarray(np.moveaxis(px.reshape(1, N, n), -1, 0)), dims=("time", "y", "x"), coords={"time": time}),
+            "(time,y,x) view": base.transpose("time", "y", "x"),
+            "(y,time,x) view": base.transpose("y", "time", "x"),
+        }
+        if n_c % 7 == 0:
+            variants["(time,y,x) dask"] = variants["(time,y,x) contiguous"].chunk({"time": -1})
+        n_c += 1
+        for vname, da in variants.items():
+            try:
+                res = da.hdc.algo.lroo()
+                got = np.asarray(res.transpose("y", "x").values).reshape(-1).astype(np.int64)
+            except Exception as e:
+                ctx.violation(sub, {"layout": vname, "pixels": px.tolist()}, {"kind": "lroo_small", "pixels": px.tolist()},
+                              f"hdc.algo.lroo() on the {vname} cube with pixels {px.tolist()} raised {type(e).__name__}: {e}")
+                continue
+            ctx.count(sub, evaluations=N, states=1, traces_validated_against_impl=1, nontrivial=int((px.max(axis=0) == 0).any()))
+            if not np.array_equal(got, exp):
+                ctx.violation(sub, {"layout": vname, "pixels": px.tolist()}, {"kind": "lroo_small", "pixels": px.tolist()},
+                              f"hdc.algo.lroo() on the {vname} cube with pixels {px.tolist()} -> {got.tolist()}, expected {exp.tolist()}")
+    ctx.note("lroo_small_cubes", n_c)
+    ctx.sample(sub, {"cubes": "every word of length <= 10 alone; every pair of length <= 5; every triple of length 3", "layouts": ["(y,x,time)", "(time,y,x) contiguous / view / dask", "(y,time,x) view"]})
+
+
 def ref_croo(w, order):
     """w rows stored in `order` (order[i] = chronological index of stored position i)."""
     chron = np.empty_like(w)
@@ -325,6 +380,7 @@ def run(ctx):
     long_runs(ctx)
     nonbinary(ctx)
     accessor_lroo(ctx)
+    lroo_small_cubes(ctx)
     croo_all(ctx)
     croo_long(ctx)
     croo_sequences(ctx)
@@ -339,6 +395,8 @@ def replay(sub, case, p):
         croo_sequences(p)
     elif k == "croo_long":
         croo_long(p)
+    elif k == "lroo_small":
+        lroo_small_cubes(p)
     elif k == "croo":
         check_croo(np.asarray([case["word"]], dtype="uint8"), tuple(case["order"]), p, sub, case.get("backend", "numpy"))
     else:
